@@ -2,8 +2,8 @@
 """Regenerates seeded/TABLE.md and the tables of DESIGN.md section 12 (between the SEED-TABLE markers)."""
 import json, glob, os, re
 V = os.path.dirname(os.path.dirname(os.path.abspath(__file__)))
-rows = {r: [] for r in range(1, 8)}
-stats = {r: [0, 0, 0] for r in range(1, 8)}  # confirmed, caught, missed-first
+rows = {r: [] for r in range(1, 9)}
+stats = {r: [0, 0, 0] for r in range(1, 9)}  # confirmed, caught, missed-first
 for d in sorted(glob.glob(V + '/seeded/C*-[a-z]')):
     m = json.load(open(d + '/meta.json'))
     name = os.path.basename(d)
@@ -16,6 +16,9 @@ for d in sorted(glob.glob(V + '/seeded/C*-[a-z]')):
             if l.startswith('#'):
                 desc = re.sub(r'^(Seed(ed change)?|Demo)?\s*[\w/ -]*?[—:-]\s*', '', l.strip('# \n'), count=1) or l.strip('# \n')
                 break
+        if not desc:  # round 8 READMEs have no heading: first line, without the "Changed:" label
+            first = [l for l in open(rp) if l.strip()]
+            desc = re.sub(r'^[-* ]*\**Changed:?\**:?\s*', '', first[0].strip()) if first else ""
     need = m.get('needs_to_manifest', '')
     sig = ""
     for c in m.get('caught_by', []):
@@ -48,13 +51,14 @@ t2c = hdr + "\n".join(rows[4])
 t2d = hdr + "\n".join(rows[5])
 t2e = hdr + "\n".join(rows[6])
 t2f = hdr + "\n".join(rows[7])
-open(V + '/seeded/TABLE.md', 'w').write("## round 1\n\n%s\n\n## round 2\n\n%s\n\n## round 3\n\n%s\n\n## round 4\n\n%s\n\n## round 5\n\n%s\n\n## round 6\n\n%s\n\n## round 7\n\n%s\n\n## own sensitivity runs\n\n%s\n" % (t1, t2, t2b, t2c, t2d, t2e, t2f, t3))
+t2g = hdr + "\n".join(rows[8])
+open(V + '/seeded/TABLE.md', 'w').write("## round 1\n\n%s\n\n## round 2\n\n%s\n\n## round 3\n\n%s\n\n## round 4\n\n%s\n\n## round 5\n\n%s\n\n## round 6\n\n%s\n\n## round 7\n\n%s\n\n## round 8\n\n%s\n\n## own sensitivity runs\n\n%s\n" % (t1, t2, t2b, t2c, t2d, t2e, t2f, t2g, t3))
 p = V + '/DESIGN.md'
 s = open(p).read()
-for tag, t in (("R1", t1), ("R2", t2), ("R3", t2b), ("R4", t2c), ("R5", t2d), ("R6", t2e), ("R7", t2f), ("OWN", t3)):
+for tag, t in (("R1", t1), ("R2", t2), ("R3", t2b), ("R4", t2c), ("R5", t2d), ("R6", t2e), ("R7", t2f), ("R8", t2g), ("OWN", t3)):
     b, e = "<!-- SEED-TABLE-%s-BEGIN -->" % tag, "<!-- SEED-TABLE-%s-END -->" % tag
     if b in s:
         s = s[:s.index(b) + len(b)] + "\n" + t + "\n" + s[s.index(e):]
 open(p, 'w').write(s)
-for r in range(1, 8):
+for r in range(1, 9):
     print("round%d: %d confirmed, %d caught, %d missed at first" % tuple([r] + stats[r]))
